@@ -30,6 +30,7 @@ type PropertySpec struct {
 	Assumptions []string      `json:"assumptions"`
 	Stubs       []string      `json:"stubs"`
 	Bounds      string        `json:"bounds"`
+	Rewrites    map[string][][2]string `json:"rewrites"`
 	Outside     []string      `json:"outside"`
 }
 
@@ -108,6 +109,13 @@ func runNativeReplays(cfg Config, hf *harnessFiles, pkg string, jobs []*replayJo
 		for _, m := range harnessFuncRe.FindAllStringSubmatch(string(data), -1) {
 			names = append(names, m[1])
 		}
+	}
+	ri := 0
+	for path, content := range hf.rewritten {
+		ri++
+		rp := filepath.Join(scratch, fmt.Sprintf("rewritten_%d.go", ri))
+		os.WriteFile(rp, content, 0o644)
+		repl[path] = rp
 	}
 	sort.Strings(names)
 	var sb strings.Builder
@@ -245,6 +253,7 @@ func cmdCheck(args []string) int {
 		fmt.Fprintln(os.Stderr, "known_findings.json:", err)
 		return 2
 	}
+	cfg.Rewrites = spec.Rewrites
 	if cfg.Tier == "thorough" {
 		cfg.TimeoutMs = 60000
 		if cfg.Samples == 5 {
@@ -511,14 +520,20 @@ func doReplayFile(cfg Config, path string) int {
 		fmt.Fprintln(os.Stderr, err)
 		return 2
 	}
+	var specs map[string]*PropertySpec
+	pkg := "yqlib"
+	if err := loadJSON(filepath.Join(filepath.Dir(cfg.HarnessDir), "checks.json"), &specs); err == nil {
+		if sp, ok := specs[j.Property]; ok {
+			cfg.Rewrites = sp.Rewrites
+			if sp.Pkg != "" {
+				pkg = sp.Pkg
+			}
+		}
+	}
 	hf, err := collectHarness(cfg)
 	if err != nil {
 		fmt.Fprintln(os.Stderr, err)
 		return 2
-	}
-	pkg := "yqlib"
-	if strings.HasPrefix(j.Harness, "VerifCmd") {
-		pkg = "cmd"
 	}
 	if err := runNativeReplays(cfg, hf, pkg, []*replayJob{&j}); err != nil {
 		fmt.Fprintln(os.Stderr, err)
